@@ -61,7 +61,7 @@ pub const PROP_KEYS: &[&str] = &[
     "color", "colour", "x1", "_u", "r", "self", "super", "async", "dyn", "long_key_name_here",
 ];
 
-pub const FIELD_NAMES: &[&str] = &["x", "y", "name", "age", "range", "inner", "value", "f0", "s", "r#type"];
+pub const FIELD_NAMES: &[&str] = &["x", "y", "name", "age", "range", "inner", "value", "f0", "s", "r#type", "f", "fmt", "field0", "xx", "v", "prop", "func", "idx"];
 
 /// realistic names for C07 layer 2 (in addition to IDENTS)
 pub const C07_DICT: &[&str] = &[
